@@ -67,7 +67,9 @@ class Run:
         self._fired_mark = 0
         cached = _ENGINES.get(key)
         if cached is None:
-            path = os.path.join(OS._dir[0], "o%d_%s_%d.db" % (os.getpid(), key[1], int(fk_on)))
+            sub = os.path.join(OS._dir[0], "p%d" % os.getpid())       # one directory per worker: journal files come and go constantly
+            os.makedirs(sub, exist_ok=True)
+            path = os.path.join(sub, "o_%s_%d.db" % (key[1], int(fk_on)))
             for suffix in ("", "-journal"):
                 try:
                     os.unlink(path + suffix)
